@@ -168,29 +168,25 @@ Proof. intros ->. reflexivity. Qed.
 (* hash_script_data hashes the ledger's preimage over the witness set emitted for the same redeemers and datums;
    stated for both values of both switches, the classes are needed only for the value `true` (code as found) *)
 Theorem preimage_spec_gen (cd eh : bool) r cm d :
-  helper_out_of_scope r cm d = false ->
+  helper_out_of_scope r d = false ->
   (cd = true -> known_dup_definite d = false) ->
   (eh = true -> known_empty_datums d = false) ->
   let fs := ws_fields (helper_witness_set r d) in
   script_data_preimage_gen cd eh r cm d =
-  ledger_preimage (assoc_field 5 fs) (assoc_field 4 fs) (spec_views (cm_keys cm) cm).
+  ledger_preimage (assoc_field 5 fs) (assoc_field 4 fs) (spec_views (helper_langs r cm) cm).
 Proof.
   intros Hscope Hcd Heh fs. subst fs.
-  unfold script_data_preimage_gen, helper_witness_set, helper_out_of_scope in *.
+  unfold script_data_preimage_gen, helper_witness_set, helper_out_of_scope, helper_langs in *.
   rewrite views_model_spec.
   destruct r as [rl rf]. cbn [rs_list rs_format] in *.
-  (* normalise the datum argument *)
   destruct d as [[de dd]|].
   - destruct de as [|d0 dt].
-    + (* Some(empty) *)
+    + (* Some(empty): there must be a redeemer *)
       destruct eh; [specialize (Heh eq_refl); discriminate|].
+      destruct rl as [|r0 rt]; [discriminate|].
       cbn [datums_for_hash_gen pl_elems is_nil set_plutus_data set_redeemers ws_new ws_plutus_scripts ws_plutus_data ws_redeemers].
-      destruct rl as [|r0 rt].
-      * cbn [is_nil andb] in Hscope. apply orb_false_iff in Hscope as [Hf _].
-        unfold ws_fields. cbn [ws_plutus_scripts ws_plutus_data ws_redeemers rs_list is_nil app assoc_field ledger_preimage].
-        rewrite redeemers_bytes_empty_map; [reflexivity|reflexivity|cbn [rs_format]; destruct rf as [[|]|]; congruence].
-      * unfold ws_fields. cbn [ws_plutus_scripts ws_plutus_data ws_redeemers rs_list is_nil app assoc_field ledger_preimage N.eqb].
-        reflexivity.
+      unfold ws_fields. cbn [ws_plutus_scripts ws_plutus_data ws_redeemers rs_list is_nil app assoc_field ledger_preimage N.eqb].
+      reflexivity.
     + (* Some(non-empty) *)
       assert (Hd : datums_for_hash_gen eh (Some (mk_plist (d0 :: dt) dd)) = Some (mk_plist (d0 :: dt) dd)) by (destruct eh; reflexivity).
       rewrite Hd.
@@ -201,30 +197,25 @@ Proof.
       unfold ws_fields. cbn [ws_plutus_scripts ws_plutus_data ws_redeemers pl_deduplicated_clone pl_elems].
       assert (Hne : is_nil (dedup_written (d0 :: dt)) = false) by reflexivity. rewrite Hne.
       destruct rl as [|r0 rt].
-      * cbn [is_nil andb is_some negb orb] in Hscope. apply orb_false_iff in Hscope as [_ Hk].
-        destruct (cm_keys cm) eqn:Ek; [|discriminate].
-        cbn [rs_list is_nil app assoc_field ledger_preimage N.eqb]. rewrite Hset. reflexivity.
       * cbn [rs_list is_nil app assoc_field ledger_preimage N.eqb]. rewrite Hset. reflexivity.
-  - cbn [datums_for_hash_gen set_redeemers ws_new ws_plutus_scripts ws_plutus_data ws_redeemers].
-    destruct rl as [|r0 rt].
-    + cbn [is_nil andb] in Hscope. apply orb_false_iff in Hscope as [Hf _].
-      unfold ws_fields. cbn [ws_plutus_scripts ws_plutus_data ws_redeemers rs_list is_nil app assoc_field ledger_preimage].
-      rewrite redeemers_bytes_empty_map; [reflexivity|reflexivity|cbn [rs_format]; destruct rf as [[|]|]; congruence].
-    + unfold ws_fields. cbn [ws_plutus_scripts ws_plutus_data ws_redeemers rs_list is_nil app assoc_field ledger_preimage N.eqb].
-      reflexivity.
+      * cbn [rs_list is_nil app assoc_field ledger_preimage N.eqb]. rewrite Hset. reflexivity.
+  - destruct rl as [|r0 rt]; [discriminate|].
+    cbn [datums_for_hash_gen set_redeemers ws_new ws_plutus_scripts ws_plutus_data ws_redeemers].
+    unfold ws_fields. cbn [ws_plutus_scripts ws_plutus_data ws_redeemers rs_list is_nil app assoc_field ledger_preimage N.eqb].
+    reflexivity.
 Qed.
 
 (* the statement for the code as it stands (the two switches of ScriptData.v) *)
 Theorem preimage_spec r cm d :
-  helper_out_of_scope r cm d = false ->
+  helper_out_of_scope r d = false ->
   (set_len_counts_duplicates = true -> known_dup_definite d = false) ->
   (empty_datums_hashed = true -> known_empty_datums d = false) ->
   let fs := ws_fields (helper_witness_set r d) in
   script_data_preimage r cm d =
-  ledger_preimage (assoc_field 5 fs) (assoc_field 4 fs) (spec_views (cm_keys cm) cm).
+  ledger_preimage (assoc_field 5 fs) (assoc_field 4 fs) (spec_views (helper_langs r cm) cm).
 Proof. apply preimage_spec_gen. Qed.
 
-(* inside the out-of-scope class the helper follows the CDDL note literally: A0 | datums | A0 *)
+(* datums without redeemers: the CDDL note literally, A0 | datums | A0, whatever table is handed over *)
 Lemma preimage_cddl_note cd r cm l :
   rs_list r = [] -> pl_elems l <> [] ->
   script_data_preimage_gen cd false r cm (Some l) = [160] ++ serialize_as_set_gen cd true l ++ [160].
@@ -240,9 +231,9 @@ Definition one_redeemer : redeemers := mk_redeemers [mk_redeemer 0 0 (mk_pdata 1
 
 Theorem preimage_refuted_dup_length :
   let fs := ws_fields (helper_witness_set one_redeemer (Some dup_witness_list)) in
-  helper_out_of_scope one_redeemer cm_empty (Some dup_witness_list) = false /\
+  helper_out_of_scope one_redeemer (Some dup_witness_list) = false /\
   script_data_preimage_gen true true one_redeemer cm_empty (Some dup_witness_list) <>
-  ledger_preimage (assoc_field 5 fs) (assoc_field 4 fs) (spec_views (cm_keys cm_empty) cm_empty) /\
+  ledger_preimage (assoc_field 5 fs) (assoc_field 4 fs) (spec_views (helper_langs one_redeemer cm_empty) cm_empty) /\
   (* the hashed datum part announces two elements and holds one: d9 0102 82 18 2a *)
   serialize_as_set_gen true true dup_witness_list = [217; 1; 2; 130; 24; 42] /\
   assoc_field 4 fs = Some [217; 1; 2; 129; 24; 42].
@@ -251,9 +242,9 @@ Proof. repeat split; try reflexivity. vm_compute. discriminate. Qed.
 Theorem preimage_refuted_empty_datums :
   let d := Some pl_new in
   let fs := ws_fields (helper_witness_set one_redeemer d) in
-  helper_out_of_scope one_redeemer cm_empty d = false /\
+  helper_out_of_scope one_redeemer d = false /\
   script_data_preimage_gen false true one_redeemer cm_empty d <>
-  ledger_preimage (assoc_field 5 fs) (assoc_field 4 fs) (spec_views (cm_keys cm_empty) cm_empty) /\
+  ledger_preimage (assoc_field 5 fs) (assoc_field 4 fs) (spec_views (helper_langs one_redeemer cm_empty) cm_empty) /\
   assoc_field 4 fs = None.
 Proof. repeat split; try reflexivity. vm_compute. discriminate. Qed.
 
@@ -706,3 +697,267 @@ Proof.
 Qed.
 
 End Builder.
+
+(* ================================================================== additions-only histories *)
+(* The property quantifies over histories of ADDITIONS with the hash computed by the builder.  An operation is additive
+   when it does not take script items away (a sub-builder is never replaced by one without Plutus witnesses once it had
+   some) and does not install a hash by hand.  On such histories a stored hash always comes with script items, so the
+   premise `has_script_items \/ hash = None` of same_bytes_history holds by itself: the no-op behaviour of
+   calc_script_data_hash (calc_noop_keeps_hash) cannot leave a stale hash behind. *)
+Section Additive.
+Variable H : bytes -> bytes.
+
+Definition sub_list (b : builder) (k : sub) : list witness :=
+  match k with
+  | SubInputs => b_inputs b | SubCollateral => b_collateral b | SubMint => b_mint b | SubCerts => b_certs b
+  | SubWithdrawals => b_withdrawals b | SubVotes => b_votes b | SubProposals => b_proposals b
+  end.
+
+Definition additive_op (b : builder) (o : op) : bool :=
+  match o with
+  | OpSetSub k ws _ => negb (is_nil ws) || is_nil (sub_list b k)
+  | OpSetHash _ => false
+  | _ => true
+  end.
+
+Fixpoint additive (b : builder) (ops : list op) : bool :=
+  match ops with
+  | [] => true
+  | o :: t => additive_op b o && additive (fst (step H b o)) t
+  end.
+
+Definition hash_has_items (b : builder) : Prop := b_script_data_hash b = None \/ has_script_items b = true.
+
+Lemma is_nil_app {A} (a b : list A) : is_nil (a ++ b) = is_nil a && is_nil b.
+Proof. destruct a; reflexivity. Qed.
+
+Lemma has_items_set_sub b k ws n : negb (is_nil ws) = true -> has_script_items (set_sub b k ws n) = true.
+Proof.
+  intros Hne. apply negb_true_iff in Hne. unfold has_script_items, all_witnesses.
+  destruct k; cbn [set_sub b_inputs b_collateral b_mint b_certs b_withdrawals b_votes b_proposals];
+    rewrite !is_nil_app, Hne; cbn [andb]; rewrite ?andb_false_r; reflexivity.
+Qed.
+
+Lemma set_sub_same_items b k ws n : is_nil ws = true -> is_nil (sub_list b k) = true ->
+  has_script_items (set_sub b k ws n) = has_script_items b /\ b_script_data_hash (set_sub b k ws n) = b_script_data_hash b.
+Proof.
+  intros Hw Hl. destruct ws; [|discriminate]. unfold has_script_items, all_witnesses.
+  destruct k; cbn [sub_list] in Hl; cbn [set_sub b_inputs b_collateral b_mint b_certs b_withdrawals b_votes b_proposals b_extra_datums b_script_data_hash];
+    match type of Hl with is_nil ?l = true => destruct l; [|discriminate] end; split; reflexivity.
+Qed.
+
+Lemma additive_step b o : wf_builder b -> hash_has_items b -> additive_op b o = true -> hash_has_items (fst (step H b o)).
+Proof.
+  intros Hwf Hi Ha. destruct o; cbn [additive_op] in Ha; cbn [step fst].
+  - apply orb_true_iff in Ha as [Hne|Hold].
+    + right. apply has_items_set_sub, Hne.
+    + destruct (is_nil ws) eqn:Ew.
+      * destruct (set_sub_same_items b k ws n Ew Hold) as [E1 E2]. unfold hash_has_items. rewrite E1, E2. exact Hi.
+      * right. apply has_items_set_sub. rewrite Ew. reflexivity.
+  - right. unfold has_script_items, add_extra_witness_datum. cbn [b_extra_datums is_some]. apply orb_true_r.
+  - unfold calc_script_data_hash. destruct (calc_preimage b cm) as [p| | |] eqn:EP; cbn [bind fst]; try exact Hi.
+    pose proof (calc_preimage_spec H b cm p Hwf EP) as HS. cbv zeta in HS.
+    destruct p as [pre|]; cbn [fst]; [|exact Hi]. destruct HS as [Hitems _]. right. exact Hitems.
+  - discriminate.
+  - left. reflexivity.
+  - exact Hi.
+  - exact Hi.
+  - exact Hi.
+  - exact Hi.
+  - exact Hi.
+Qed.
+
+Lemma additive_run ops : forall b, wf_builder b -> hash_has_items b -> additive b ops = true ->
+  hash_has_items (fst (run H b ops)).
+Proof.
+  induction ops as [|o t IH]; intros b Hwf Hi Ha; [exact Hi|].
+  cbn [additive] in Ha. apply andb_true_iff in Ha as [Ho Ht]. rewrite run_cons.
+  apply IH; [apply wf_step, Hwf|apply additive_step; assumption|exact Ht].
+Qed.
+
+Lemma additive_app b ops1 ops2 : additive b (ops1 ++ ops2) = true -> additive b ops1 = true.
+Proof.
+  revert b. induction ops1 as [|o t IH]; intros b Ha; [reflexivity|].
+  cbn [app additive] in *. apply andb_true_iff in Ha as [Ho Ht]. rewrite Ho. exact (IH _ Ht).
+Qed.
+
+(* C09_same_bytes for additions-only histories: no premise about the earlier hash is needed *)
+Theorem same_bytes_additive ops cm before t :
+  additive builder_new ops = true ->
+  last_calc_rev (rev ops) = Some (cm, before) ->
+  let b0 := fst (run H builder_new (rev before)) in
+  let b := fst (run H builder_new ops) in
+  is_ok (calc_script_data_hash H b0 cm) = true ->
+  build_tx H b = Ok t ->
+  let fs := ws_fields (tx_witness_set t) in
+  tx_script_data_hash t = ledger_script_integrity H (assoc_field 5 fs) (assoc_field 4 fs) (langs_used b) cm.
+Proof.
+  intros Hadd Hl b0 b Hok Hbuild.
+  apply (same_bytes_history H ops cm before t Hl Hok); [|exact Hbuild].
+  destruct (last_calc_rev_split _ _ _ Hl) as [rpost [Hro _]].
+  assert (Hops : ops = rev before ++ (OpCalc cm :: rev rpost)).
+  { rewrite <- (rev_involutive ops), Hro, rev_app_distr. cbn [rev]. rewrite <- app_assoc. reflexivity. }
+  rewrite Hops in Hadd. apply additive_app in Hadd.
+  assert (Hi : hash_has_items b0).
+  { apply additive_run; [apply wf_new|left; reflexivity|exact Hadd]. }
+  unfold hash_has_items, b0 in Hi. destruct Hi as [Hn|Hitems].
+  - rewrite Hn. apply orb_true_r.
+  - rewrite Hitems. reflexivity.
+Qed.
+
+End Additive.
+
+(* ================================================================== auxiliary data: histories and wire forms *)
+Section AuxHistory.
+Variable H : bytes -> bytes.
+
+(* the auxiliary data a history leaves in the builder: the fold of aux_step, whatever else happens in between *)
+Definition aux_of_history (ops : list op) : option aux_data := fold_left aux_step ops None.
+
+Lemma step_aux b o : b_aux (fst (step H b o)) = aux_step (b_aux b) o.
+Proof.
+  destruct o; cbn [step fst aux_step]; try reflexivity.
+  - destruct k; reflexivity.
+  - unfold calc_script_data_hash. destruct (calc_preimage b cm) as [[p|]| | |]; reflexivity.
+Qed.
+
+Lemma run_aux ops : forall b, b_aux (fst (run H b ops)) = fold_left aux_step ops (b_aux b).
+Proof.
+  induction ops as [|o t IH]; intros b; [reflexivity|].
+  rewrite run_cons, IH, step_aux. reflexivity.
+Qed.
+
+(* C09_aux, history form: for EVERY history of builder operations (auxiliary-data setters in any number and order,
+   interleaved with anything else) the body's auxiliary_data_hash is the hash of the auxiliary data the transaction
+   carries, as serialised, and that is the auxiliary data the last setters left *)
+Theorem aux_history ops t :
+  build_tx H (fst (run H builder_new ops)) = Ok t ->
+  tx_aux t = aux_of_history ops /\
+  tx_aux_data_hash t = ledger_aux_hash H (match aux_of_history ops with Some a => Some (enc_aux a) | None => None end).
+Proof.
+  intros Hb. pose proof (aux_hash H _ _ Hb) as Hh.
+  assert (Ha : tx_aux t = aux_of_history ops).
+  { unfold build_tx in Hb.
+    destruct (has_plutus_inputs _ && negb (is_some _)); [discriminate|].
+    destruct (has_plutus_inputs _ && (_ =? 0)); [discriminate|].
+    injection Hb as <-. cbn [tx_aux]. rewrite run_aux. reflexivity. }
+  split; [exact Ha|]. rewrite <- Ha. exact Hh.
+Qed.
+
+(* re-setting the same content with the other format preference changes the emitted bytes (Shelley map vs tag 259):
+   the hash must follow *)
+Lemma map_head_first n : exists b r, encode_head 5 n = b :: r /\ b < 192.
+Proof.
+  unfold encode_head.
+  destruct (n <? 24) eqn:E1; [exists (5 * 32 + n), []; split; [reflexivity|lia]|].
+  destruct (n <? 256); [eexists _, _; split; [reflexivity|lia]|].
+  destruct (n <? 65536); [eexists _, _; split; [reflexivity|lia]|].
+  destruct (n <? 4294967296); eexists _, _; (split; [reflexivity|lia]).
+Qed.
+
+Lemma format_flag_changes_bytes md :
+  enc_aux (mk_aux (Some md) None None false) <> enc_aux (mk_aux (Some md) None None true).
+Proof.
+  cbn [enc_aux negb a_prefer_alonzo a_metadata a_plutus a_native]. unfold enc_metadata.
+  destruct (map_head_first (len md)) as [b [r [E Hb]]]. rewrite E.
+  change (encode_head 6 259) with [217; 1; 3]. cbn [app]. intros Heq. injection Heq as Hb' _. lia.
+Qed.
+
+(* decoding: what comes back from a wire form re-serialises to the same bytes when the form is one the serializer
+   itself produces (Plutus lists: a V1 list present whenever any is, later lists non-empty) *)
+Definition nonempty_or_absent (o : option (list bytes)) : bool := match o with Some [] => false | _ => true end.
+Definition wire_canonical (w : aux_wire) : bool :=
+  match w with
+  | WAlonzo _ _ v1 v2 v3 =>
+      (is_some v1 || (negb (is_some v2) && negb (is_some v3))) && nonempty_or_absent v2 && nonempty_or_absent v3
+  | _ => true
+  end.
+
+Lemma scripts_view_map_same v l : scripts_view v (map (mk_script v) l) = map (mk_script v) l.
+Proof. induction l as [|x t IH]; [reflexivity|]. cbn [map scripts_view filter sc_lang]. rewrite lang_eqb_refl. f_equal. exact IH. Qed.
+Lemma scripts_view_map_other v v' l : lang_eqb v' v = false -> scripts_view v (map (mk_script v') l) = [].
+Proof. intros Hv. induction l as [|x t IH]; [reflexivity|]. cbn [map scripts_view filter sc_lang]. rewrite Hv. exact IH. Qed.
+Lemma scripts_view_app v a b : scripts_view v (a ++ b) = scripts_view v a ++ scripts_view v b.
+Proof. apply filter_app. Qed.
+Lemma has_version_view v l : has_version v l = negb (is_nil (scripts_view v l)).
+Proof.
+  induction l as [|x t IH]; [reflexivity|]. cbn [has_version existsb scripts_view filter].
+  destruct (lang_eqb (sc_lang x) v); [reflexivity|]. exact IH.
+Qed.
+Lemma enc_scripts_by_version_map v l : enc_scripts_by_version v (map (mk_script v) l) = enc_script_array l.
+Proof.
+  unfold enc_scripts_by_version, enc_script_array. rewrite scripts_view_map_same. unfold len. rewrite map_length.
+  f_equal. induction l as [|x t IH]; [reflexivity|]. cbn [map flat_map]. rewrite IH. reflexivity.
+Qed.
+
+Definition ol (o : option (list bytes)) : list bytes := match o with Some l => l | None => [] end.
+Definition merged3 (l1 l2 l3 : list bytes) : list script :=
+  map (mk_script V1) l1 ++ map (mk_script V2) l2 ++ map (mk_script V3) l3.
+
+Lemma merged3_view l1 l2 l3 :
+  scripts_view V1 (merged3 l1 l2 l3) = map (mk_script V1) l1 /\
+  scripts_view V2 (merged3 l1 l2 l3) = map (mk_script V2) l2 /\
+  scripts_view V3 (merged3 l1 l2 l3) = map (mk_script V3) l3.
+Proof.
+  unfold merged3. rewrite !scripts_view_app, !scripts_view_map_same.
+  rewrite !(scripts_view_map_other V1 V2), !(scripts_view_map_other V1 V3), !(scripts_view_map_other V2 V1),
+          !(scripts_view_map_other V2 V3), !(scripts_view_map_other V3 V1), !(scripts_view_map_other V3 V2) by reflexivity.
+  rewrite !app_nil_r. repeat split; reflexivity.
+Qed.
+
+Lemma merged3_enc l1 l2 l3 :
+  let L := merged3 l1 l2 l3 in
+  enc_scripts_by_version V1 L = enc_script_array l1 /\ enc_scripts_by_version V2 L = enc_script_array l2 /\
+  enc_scripts_by_version V3 L = enc_script_array l3 /\
+  has_version V2 L = negb (is_nil l2) /\ has_version V3 L = negb (is_nil l3).
+Proof.
+  cbv zeta. destruct (merged3_view l1 l2 l3) as [E1 [E2 E3]].
+  rewrite !has_version_view, E2, E3.
+  repeat split.
+  - rewrite <- (enc_scripts_by_version_map V1 l1). unfold enc_scripts_by_version. rewrite E1, scripts_view_map_same. reflexivity.
+  - rewrite <- (enc_scripts_by_version_map V2 l2). unfold enc_scripts_by_version. rewrite E2, scripts_view_map_same. reflexivity.
+  - rewrite <- (enc_scripts_by_version_map V3 l3). unfold enc_scripts_by_version. rewrite E3, scripts_view_map_same. reflexivity.
+  - destruct l2; reflexivity.
+  - destruct l3; reflexivity.
+Qed.
+
+Lemma merge_opt_merged3 v1 v2 v3 :
+  merge_opt (merge_opt (scripts_of V1 v1) (scripts_of V2 v2)) (scripts_of V3 v3) =
+  if is_some v1 || is_some v2 || is_some v3 then Some (merged3 (ol v1) (ol v2) (ol v3)) else None.
+Proof.
+  unfold merged3. destruct v1 as [l1|], v2 as [l2|], v3 as [l3|]; cbn [scripts_of merge_opt is_some orb ol map app];
+    rewrite ?app_nil_r, <- ?app_assoc; reflexivity.
+Qed.
+
+(* the serializer reproduces a canonical wire form exactly (so set_auxiliary_data(from_bytes(b)) emits b and hashes b) *)
+Theorem wire_reencode w a : decode_wire w = Ok a -> wire_canonical w = true -> enc_aux a = enc_wire w.
+Proof.
+  destruct w as [md|md ns|md ns v1 v2 v3]; cbn [decode_wire wire_canonical].
+  - destruct (labels_nodup [] md); [|discriminate]. intros Ha _. injection Ha as <-. reflexivity.
+  - destruct (labels_nodup [] md); [|discriminate]. intros Ha _. injection Ha as <-. reflexivity.
+  - destruct (match md with Some m => labels_nodup [] m | None => true end); [|discriminate].
+    intros Ha Hc. injection Ha as <-. rewrite merge_opt_merged3.
+    apply andb_true_iff in Hc as [Hc H3]. apply andb_true_iff in Hc as [H1 H2].
+    destruct (merged3_enc (ol v1) (ol v2) (ol v3)) as [E1 [E2 [E3 [V2' V3']]]].
+    assert (Henc : forall x (n : option bytes) p, enc_aux (mk_aux x n p true) =
+              encode_head 6 259 ++ encode_head 5 (opt64 x + opt64 n +
+                 match p with Some l => 1 + b2n (has_version V2 l) + b2n (has_version V3 l) | None => 0 end) ++
+              (match x with Some m => [0] ++ enc_metadata m | None => [] end) ++
+              (match n with Some y => [1] ++ y | None => [] end) ++
+              (match p with
+               | Some l => [2] ++ enc_scripts_by_version V1 l ++
+                           (if has_version V2 l then [3] ++ enc_scripts_by_version V2 l else []) ++
+                           (if has_version V3 l then [4] ++ enc_scripts_by_version V3 l else [])
+               | None => [] end)).
+    { intros x n p. unfold enc_aux. cbn [negb a_prefer_alonzo a_metadata a_native a_plutus]. destruct x; reflexivity. }
+    rewrite Henc. cbn [enc_wire].
+    destruct v1 as [l1|]; cbn [is_some orb negb andb] in *.
+    + rewrite E1, E2, E3, V2', V3'. cbn [ol] in *.
+      destruct v2 as [[|x2 t2]|]; try discriminate; destruct v3 as [[|x3 t3]|]; try discriminate;
+        cbn [ol is_nil negb b2n opt64 is_some app]; rewrite ?app_nil_r;
+        rewrite ?N.add_0_r, ?N.add_assoc; reflexivity.
+    + destruct v2; [discriminate|]. destruct v3; [discriminate|]. cbn [is_some orb opt64]. rewrite !app_nil_r.
+      rewrite ?N.add_0_r, ?N.add_assoc; reflexivity.
+Qed.
+
+End AuxHistory.
